@@ -120,6 +120,17 @@ CLAIMED["C04"] = dict(
          "threads outside; <=3 queued trials, <=3 workers",
     design="§3 C04")
 
+CLAIMED["C11"] = dict(
+    text="Bounded symbolic execution of the real optuna.distributions code: IntDistribution with UNBOUNDED z3-int low/high/value (|x|<2^53) and "
+         "a concrete step per query (1..64): high adjusted to the last grid point, idempotent under reconstruction and JSON round trip, single() <=> "
+         "one grid point, containment <=> on the grid, external(internal(v)) == v, deprecated classes convert equal; FloatDistribution without step "
+         "over z3 reals; stepped FloatDistribution over decimal numerals n/10^6 with unbounded z3-int n through an exact Decimal shim; "
+         "CategoricalDistribution over a type lattice with symbolic numbers (True/1/1.0 collisions, NaN). One solver query set per (class, step).",
+    note="float(int) exact below 2^53 (asserted); stepped floats restricted to arguments that are decimal numerals with <=6 fractional digits "
+         "(str(float(x)) is then the numeral: validated concretely each run); json replaced by a JSON model when proxies flow; the continuous "
+         "transform round trip is covered by C10's kernels, not here",
+    design="§3 C11")
+
 NOT_APPLICABLE = {
     "C03": "thread/process pre-emption at source-line granularity inside the storage layer cannot be made a symbolic variable over the "
            "real Python code by a solver-based executor; its atomic-step obligations are discharged under C01/C04/C06/C07",
